@@ -1,7 +1,7 @@
 #!/bin/sh
 # usage: process_seeds.sh <Cnn> [tier]  -- for every seed under /tmp/wt-Cnn/_seed: confirm it, keep it in
 # /verif/seeded/, then run the property's check against the worktree with the patch applied (VERIF_REPO).
-pid=$1; tier=${2:-quick}; wt=/tmp/wt-$pid
+pid=$1; tier=${2:-quick}; wt=${3:-/tmp/wt}-$pid
 for sd in $wt/_seed/${pid}_*; do
   [ -d "$sd" ] || continue
   name=$(basename $sd)
